@@ -85,6 +85,19 @@ func deletions(spec *StructSpec, doc *Node) []*Node {
 		}
 	}
 	for _, f := range spec.Fields {
+		if f.Kind == kIntMap {
+			// entries of a map[string]int value are unordered and independent: removable
+			for i := range doc.O {
+				if doc.O[i].F && doc.O[i].Key == f.Key() && doc.O[i].V.K == "obj" {
+					for j := range doc.O[i].V.O {
+						c := doc.clone()
+						v := c.O[i].V
+						v.O = append(v.O[:j:j], v.O[j+1:]...)
+						out = append(out, c)
+					}
+				}
+			}
+		}
 		if f.Inner == nil {
 			continue
 		}
